@@ -325,6 +325,24 @@ func c10Rows(r *Run, n int) {
 			if m2 := readUpdate(db, &u2, "T", uuid); m2.New != nil {
 				n2 = m2.New.Row
 			}
+			// a second update of the row aggregated into the same ModelUpdates, computed from the model the first
+			// one produced (GetModel, as the documentation says): that model, handed out by GetModel and by
+			// ForEachModelUpdate, is not altered either -- whether the second update is accepted or refused
+			if m1 := u1.GetModel("T", uuid); m1 != nil {
+				_, before := db.RowOf("T", m1)
+				upd2 := Row{}
+				for _, c := range t.Cols {
+					if r.Rng.Intn(2) == 0 {
+						upd2[c.Name] = nativeToOvsValue(genValue(r.Rng, c.Type))
+					}
+				}
+				_ = u1.AddOperation(db.Model, "T", uuid, m1, RowOperationJ{Op: "update", Row: upd2}.toOvs("T"))
+				if _, now := db.RowOf("T", m1); rowExact(now) != rowExact(before) {
+					cs["second_update"] = upd2
+					failure = "PURITY a second AddOperation(update) altered the model GetModel had handed out for the first: " + rowExact(now) + " (was " + rowExact(before) + ")"
+					return
+				}
+			}
 		}()
 		if strings.HasPrefix(failure, "PURITY") {
 			r.Violation("row-update", cs, failure, rowExact(a), true, "computing or applying a difference altered the model it was computed from", "")
